@@ -309,6 +309,16 @@ class Interp:
                 found.add(mm["fields"][fld])
         if len(found) == 1:
             return self.resolve_T(parse_T(found.pop()))
+        if not found and getattr(self, "_spec_field_fallback", False):
+            # spec mode: a branch that is dead for this static class still has to be well-sorted
+            root = cls
+            while self.classes.get(root, {}).get("base"):
+                root = self.classes[root]["base"]
+            for n, mm in self.classes.items():
+                if self.model_is_sub(n, root) and fld in mm.get("fields", {}):
+                    found.add(mm["fields"][fld])
+            if len(found) == 1:
+                return self.resolve_T(parse_T(found.pop()))
         return None
 
     def model_is_sub(self, n, base) -> bool:
@@ -336,6 +346,12 @@ class Interp:
         """z3 condition for isinstance(v, cname)."""
         if isinstance(v, Z) and v.t.kind == "ref":
             subs = self.concrete_subclasses(cname)
+            if v.t.cls:
+                mine = self.concrete_subclasses(v.t.cls)
+                if mine:
+                    if all(m in subs for m in mine):
+                        return z3.BoolVal(True)      # decided by the static class
+                    subs = [x for x in subs if x in mine]
             if not subs:
                 return z3.BoolVal(False)
             return z3.Or([smt.cls_of(v.e) == z3.StringVal(s) for s in subs])
